@@ -25,6 +25,12 @@ Theorem C20_pair : forall k v,
   enc_payload (PTlv k v) = enc_payload (PPair k v) /\ forall w, write_to (PTlv k v) w = write_to (PPair k v) w.
 Proof. exact tlv_pair_same. Qed.
 
+(* a TLV section (TypeLengthValues is Copy and its own iterator) encodes to all of its bytes, whether or
+   not it has been iterated *)
+Theorem C20_section : forall b off1 off2, enc_payload (PSection b off1) = enc_payload (PSection b off2)
+  /\ forall w, write_to (PSection b off1) w = write_to (PSection b off2) w.
+Proof. exact section_cursor_irrelevant. Qed.
+
 (* a value too large for its 16-bit length is refused without writing anything *)
 Theorem C20_refuse : forall w p, oversize p = true -> write_to p w = (None, w).
 Proof. exact write_to_refuses. Qed.
@@ -47,6 +53,7 @@ Print Assumptions C20.
 Print Assumptions C20_to_bytes.
 Print Assumptions C20_int.
 Print Assumptions C20_pair.
+Print Assumptions C20_section.
 Print Assumptions C20_refuse.
 Print Assumptions C20_success.
 Print Assumptions C20_band.
